@@ -1649,7 +1649,12 @@ func (h *Hashgraph) CheckBlock(block *Block, peerSet *peers.PeerSet) error {
 		return fmt.Errorf("Wrong PeerSet")
 	}
 
+	// Count each validator once. The keys of block.Signatures are strings
+	// chosen by the sender: several of them can decode to the same public key
+	// (lower/upper case, different first two characters), so counting map
+	// entries would let a single signer reach the threshold alone.
 	validSignatures := 0
+	counted := make(map[string]bool)
 	for _, s := range block.GetSignatures() {
 		validatorHex := s.ValidatorHex()
 		if _, ok := peerSet.ByPubKey[validatorHex]; !ok {
@@ -1658,8 +1663,12 @@ func (h *Hashgraph) CheckBlock(block *Block, peerSet *peers.PeerSet) error {
 			}).Warning("Verifying Block signature. Unknown validator")
 			continue
 		}
+		if counted[validatorHex] {
+			continue
+		}
 		ok, _ := block.Verify(s)
 		if ok {
+			counted[validatorHex] = true
 			validSignatures++
 		}
 	}
